@@ -727,3 +727,19 @@ Proof.
         apply orb_true_iff in Hm. destruct Hm as [Hm|Hm]; apply String.eqb_eq in Hm; congruence.
   - apply in_or_app. left. exact H3.
 Qed.
+
+(* the pushed descriptor itself is in the index afterwards *)
+Lemma add_final_in d tag ref l : tag = tag_of d -> tag <> "" -> In d (add_final d tag ref l).
+Proof.
+  intros Htag Ht. unfold add_final. destruct (add_scan d tag ref 0 None l) as [|k|] eqn:Es.
+  - exfalso. exact (add_scan_not_keep d tag ref Ht l 0%nat None Es).
+  - apply set_nth_in. apply add_scan_range in Es. destruct Es as [Es|Es]; [discriminate|lia].
+  - apply in_or_app. right. left. reflexivity.
+Qed.
+
+Theorem add_desc_in d cs i i' : ann_get RefName d <> "" -> add_desc d cs i = Ok i' -> In d (top i').
+Proof.
+  intros Ht H. unfold add_desc in H.
+  match type of H with context [rbind ?x _] => destruct x as [i1| |] end; simpl in H; try discriminate.
+  inversion H; subst. cbn [top]. apply add_final_in; auto.
+Qed.
